@@ -311,6 +311,32 @@ impl<'a, 'tcx> BV<'a, 'tcx> {
                             "const:?".to_string()
                         }
                     }
+                    ty::Ref(_, inner, _) if inner.is_str() => {
+                        // string literal: its text (helper names of the JIT's symbol table, error messages, ...)
+                        let span = c.span;
+                        match c.const_.eval(self.tcx, self.tenv, span) {
+                            Ok(cv) => match cv.try_get_slice_bytes_for_diagnostics(self.tcx) {
+                                Some(bytes) if bytes.len() <= 96 => {
+                                    format!("str:{}", String::from_utf8_lossy(bytes))
+                                }
+                                _ => "const<&str>".to_string(),
+                            },
+                            Err(_) => "const<&str>".to_string(),
+                        }
+                    }
+                    ty::Adt(def, _) if def.is_enum() && def.variants().iter().all(|v| v.fields.is_empty()) => {
+                        // field-less enum constant: the variant's name
+                        let mut out = format!("const<{}>", ty_short(self.tcx, ty));
+                        if let Some(si) = c.const_.try_eval_scalar_int(self.tcx, self.tenv) {
+                            let val = si.to_uint(si.size());
+                            for (vi, d) in def.discriminants(self.tcx) {
+                                if d.val == val {
+                                    out = format!("variant:{}::{}", self.tcx.item_name(def.did()), def.variant(vi).name);
+                                }
+                            }
+                        }
+                        out
+                    }
                     _ => format!("const<{}>", ty_short(self.tcx, ty)),
                 }
             }
@@ -562,6 +588,29 @@ impl<'a, 'tcx> Visitor<'tcx> for BV<'a, 'tcx> {
                     );
                     self.push(loc.block, s);
                 }
+                // constants worth knowing by value (string literals, field-less enum variants, small integers)
+                if let Rvalue::Use(Operand::Constant(_), ..) = rv {
+                    if let Rvalue::Use(op, ..) = rv {
+                        let v = self.operand_str(op);
+                        if v.starts_with("str:") || v.starts_with("variant:") || v.starts_with("const:") {
+                            let s = format!("[\"kv\",\"_{}\",{}]", place.local.as_usize(), esc(&v));
+                            self.push(loc.block, s);
+                        }
+                    }
+                }
+                // field-less enum variant built as an aggregate (`_5 = InferredType::Int`)
+                if let Rvalue::Aggregate(kind, ops) = rv {
+                    if let AggregateKind::Adt(did, vidx, _, _, _) = &**kind {
+                        if ops.is_empty() && interesting_crate(self.tcx, *did) {
+                            let adt = self.tcx.adt_def(*did);
+                            if adt.is_enum() {
+                                let v = format!("variant:{}::{}", self.tcx.item_name(*did), adt.variant(*vidx).name);
+                                let s = format!("[\"kv\",\"_{}\",{}]", place.local.as_usize(), esc(&v));
+                                self.push(loc.block, s);
+                            }
+                        }
+                    }
+                }
                 // aggregates (Some(x), tuples, struct literals): the result is derived from each operand
                 if let Rvalue::Aggregate(_, ops) = rv {
                     for (idx, op) in ops.iter().enumerate() {
@@ -578,16 +627,37 @@ impl<'a, 'tcx> Visitor<'tcx> for BV<'a, 'tcx> {
                     }
                 }
                 // arithmetic / comparisons / negation: the result is *derived from* (not an alias of) each operand
-                let derived: Vec<&Place<'tcx>> = match rv {
-                    Rvalue::BinaryOp(_, ops) => [&ops.0, &ops.1]
+                let derived: Vec<(String, &Place<'tcx>, usize)> = match rv {
+                    Rvalue::BinaryOp(op, ops) => [&ops.0, &ops.1]
                         .into_iter()
-                        .filter_map(|o| if let Operand::Copy(p) | Operand::Move(p) = o { Some(p) } else { None })
+                        .enumerate()
+                        .filter_map(|(i, o)| {
+                            if let Operand::Copy(p) | Operand::Move(p) = o { Some((format!("{:?}", op), p, i)) } else { None }
+                        })
                         .collect(),
-                    Rvalue::UnaryOp(_, Operand::Copy(p) | Operand::Move(p)) => vec![p],
+                    Rvalue::UnaryOp(op, Operand::Copy(p) | Operand::Move(p)) => vec![(format!("{:?}", op), p, 0)],
                     _ => vec![],
                 };
-                for p in derived {
-                    let s = format!("[\"der\",\"_{}\",{}]", place.local.as_usize(), esc(&self.place_str(p)));
+                for (op, p, i) in derived {
+                    let s = format!(
+                        "[\"der\",\"_{}\",{},{},{}]",
+                        place.local.as_usize(),
+                        esc(&self.place_str(p)),
+                        esc(&op),
+                        i
+                    );
+                    self.push(loc.block, s);
+                }
+            } else {
+                // store through a projection (`*p = x`, `s.f = x`, `(*p).f = x`)
+                let src: Option<String> = match rv {
+                    Rvalue::Use(Operand::Copy(p) | Operand::Move(p), ..) => Some(self.place_str(p)),
+                    Rvalue::Use(Operand::Constant(_), ..) => Some("const".to_string()),
+                    Rvalue::Cast(_, Operand::Copy(p) | Operand::Move(p), _) => Some(self.place_str(p)),
+                    _ => None,
+                };
+                if let Some(src) = src {
+                    let s = format!("[\"st\",{},{}]", esc(&self.place_str(place)), esc(&src));
                     self.push(loc.block, s);
                 }
             }
